@@ -1,6 +1,7 @@
 from ..mesh.mesh_attributes import Attribute, ArrayAttribute
 from ..mesh.datatypes import *
 from .attr_corners import cotangent
+from .attr_faces import face_normals
 from .. import geometry as geom
 from ..geometry import Vec
 import numpy as np
@@ -55,11 +56,12 @@ def curvature_matrices(mesh : SurfaceMesh) -> Attribute:
     """
 
     data = np.zeros((len(mesh.edges), 3,3), dtype=np.float64)
+    fnormals = face_normals(mesh, persistent=False) # also defined for faces with more than 3 vertices
     for e, (A,B) in enumerate(mesh.edges):
         T1,T2 = mesh.connectivity.edge_to_faces(A,B)
         if T1 is not None and T2 is not None:
-            _,_,n1 = geom.face_basis(*(mesh.vertices[u] for u in mesh.faces[T1]))
-            _,_,n2 = geom.face_basis(*(mesh.vertices[u] for u in mesh.faces[T2]))
+            n1 = fnormals[T1]
+            n2 = fnormals[T2]
             # angle = geom.signed_angle_2vec3D(n1,n2,n2-n1)
             angle = geom.angle_2vec3D(n1,n2)
             edge = Vec.normalized(mesh.vertices[B] - mesh.vertices[A])
